@@ -8,5 +8,6 @@ rm -rf $COPY; rsync -a --exclude 'scratch_*' /verif/coq/ $COPY/
 cd $COPY
 LIBS=$(ls props/C*.v | sed -e 's#props/#ML.props.#' -e 's#\.v$##' | tr '\n' ' ')
 { echo "coqchk -o -silent -Q . ML $LIBS"; echo "started: $(date -u)"; echo "commit: $(git -C /verif rev-parse --short HEAD)";
-  /usr/bin/time -f "wall %es" timeout 28000 coqchk -o -silent -Q . ML $LIBS; echo "exit: $?"; echo "finished: $(date -u)"; } > /verif/coqchk_report.txt 2>&1
+  /usr/bin/time -f "wall %es" timeout 28000 coqchk -o -silent -Q . ML $LIBS; echo "exit: $?"; echo "finished: $(date -u)"; } > /verif/.cache/coqchk_report.tmp 2>&1
+mv -f /verif/.cache/coqchk_report.tmp /verif/coqchk_report.txt
 rm -rf $COPY
